@@ -254,9 +254,13 @@ Definition zp_remote_free (z : zpage) (b : N) : option zpage :=
   if memN b (page_live (zp_page z))
   then Some (zp_set z (page_remote_free (zp_page z) b) (upd (zp_ghost z) b (mkBg false (g_rest (zp_ghost z b)))))
   else None.
-(* _mi_page_free_collect: links of blocks that are already on a list are rewritten *)
+(* _mi_page_free_collect: the lists are spliced by rewriting the link of the last block of thread_free
+   (_mi_page_thread_free_collect) and of local_free (the forced append): a link word of a listed block that happened
+   to be zero (the NULL link of a last element) need not be afterwards *)
 Definition zp_collect (z : zpage) (force : bool) : zpage :=
-  zp_set z (fst (page_free_collect (zp_page z) force)) (zp_ghost z).
+  let p := zp_page z in
+  zp_set z (fst (page_free_collect p force))
+         (fun i => if memN i (local_free p ++ thread_free p) then mkBg false (g_rest (zp_ghost z i)) else zp_ghost z i).
 (* a program store into live block b: into its first word (w0) and / or behind it (rest) *)
 Definition zp_write (z : zpage) (b : N) (w0 rest : bool) : option zpage :=
   if memN b (page_live (zp_page z))
